@@ -7,6 +7,7 @@ pub mod c04;
 pub mod c05;
 pub mod c06;
 pub mod c07;
+pub mod c08;
 
 pub fn property(id: &str) -> Option<Property> {
     match id {
@@ -17,6 +18,7 @@ pub fn property(id: &str) -> Option<Property> {
         "C05" => Some(c05::property()),
         "C06" => Some(c06::property()),
         "C07" => Some(c07::property()),
+        "C08" => Some(c08::property()),
         _ => None,
     }
 }
